@@ -52,8 +52,16 @@ class TreeSpec(Spec):
         info = {"stop_" + str(sim.stop_reason): 1, "driver_" + plan["driver"]: 1, "observations": sim.nobs, "ops_executed": sim.nops_done, "trades": sim.model.ntrades, "transfers": sim.model.ntransfers, "root_updates": sim.root_updates}
         for k, v in sim.inconclusive.items():
             info["inconclusive_" + k] = v
+        import hashlib
+
+        h = hashlib.sha256(repr(sim.log).encode())
+        if sim.root is not None and getattr(sim.root, "data", None) is not None:
+            for n in sim.root.members:
+                h.update(n.full_name.encode())
+                h.update(n.data.to_numpy(dtype=float, na_value=float("nan")).tobytes())
         return dict(
             viol=sim.viol,
+            digest=h.hexdigest()[:20],
             fired=sim.fired,
             nontrivial=(sim.model.ntrades >= 1 and sim.ticks >= 3),
             states=sim.states,
